@@ -225,6 +225,10 @@ def coroutine(
                     future_set_result_unless_cancelled(
                         future, _value_from_stopiteration(e)
                     )
+                except asyncio.CancelledError:
+                    # Same outcome as when this happens after the first
+                    # yield (see Runner.run): the coroutine ends cancelled.
+                    future.cancel()
                 except Exception:
                     future_set_exc_info(future, sys.exc_info())
                 else:
